@@ -693,9 +693,10 @@ impl Update {
         } else {
             Vec::new()
         };
-        // Update the rows.
-        for value_refs in rows.iter_mut() {
-            let should_update = match self.condition {
+        // Determine which rows to update.
+        let should_update: Vec<bool> = rows
+            .iter()
+            .map(|value_refs| match self.condition {
                 Some(ref expr) => {
                     let values: Vec<Value> = value_refs
                         .iter()
@@ -705,7 +706,50 @@ impl Update {
                     expr.eval(&row).to_bool()
                 }
                 None => true,
-            };
+            })
+            .collect();
+        // If primary key columns are being assigned, make sure that the keys
+        // will still be unique afterwards (before modifying anything).
+        let key_indices = table.primary_key_indices();
+        let updates_keys = self.updates.iter().any(|(column_name, _)| {
+            table
+                .index_for_column_name(column_name)
+                .is_some_and(|index| key_indices.contains(&index))
+        });
+        if updates_keys {
+            let mut new_keys_set = HashSet::<Vec<Value>>::new();
+            for (value_refs, &should_update) in
+                rows.iter().zip(should_update.iter())
+            {
+                let mut keys: Vec<Value> = key_indices
+                    .iter()
+                    .map(|&index| value_refs[index].to_value(string_pool))
+                    .collect();
+                if should_update {
+                    for (column_name, value) in self.updates.iter() {
+                        let index =
+                            table.index_for_column_name(column_name).unwrap();
+                        if let Some(pos) =
+                            key_indices.iter().position(|&k| k == index)
+                        {
+                            keys[pos] = value.clone().into_stored();
+                        }
+                    }
+                }
+                if !new_keys_set.insert(keys.clone()) {
+                    already_exists!(
+                        "Update would leave table {:?} with multiple rows \
+                         with key {:?}",
+                        self.table_name,
+                        keys
+                    );
+                }
+            }
+        }
+        // Update the rows.
+        for (value_refs, &should_update) in
+            rows.iter_mut().zip(should_update.iter())
+        {
             if should_update {
                 for (column_name, value) in self.updates.iter() {
                     let index =
@@ -715,6 +759,15 @@ impl Update {
                     *value_ref = ValueRef::create(value.clone(), string_pool);
                 }
             }
+        }
+        // Keep the rows in primary key order if any keys changed.
+        if updates_keys {
+            rows.sort_by_cached_key(|value_refs| -> Vec<Value> {
+                key_indices
+                    .iter()
+                    .map(|&index| value_refs[index].to_value(string_pool))
+                    .collect()
+            });
         }
         // Write the table back out to the file.
         let stream = comp.create_stream(&stream_name)?;
